@@ -541,6 +541,47 @@ pub fn run(args: &Args, c13: bool) -> Report {
             }
         }
     }
+    // (c) C11 only: racing cancels. "First reason wins" and "cancellation is permanent" under concurrency: once a
+    // thread's own cancel() has returned, the reason it reads can never change again, whatever other cancels race it.
+    if !c13 {
+        let trials = if miri { 6 } else { args.budget(8_000, 300_000) };
+        let mut raced = 0u64;
+        for t in 0..trials {
+            let ctl = TransferControl::with_replay_capacity(8, 64);
+            let nthreads = 2 + (t % 2) as usize;
+            let barrier = std::sync::Barrier::new(nthreads);
+            let seen: std::sync::Mutex<Vec<(usize, Option<String>)>> = std::sync::Mutex::new(vec![]);
+            std::thread::scope(|sc| {
+                for i in 0..nthreads {
+                    let (ctl, barrier, seen) = (&ctl, &barrier, &seen);
+                    sc.spawn(move || {
+                        barrier.wait();
+                        ctl.cancel(format!("reason-{i}"));
+                        let r = ctl.cancel_reason();
+                        seen.lock().unwrap().push((i, r));
+                    });
+                }
+            });
+            rep.eval();
+            let seen = seen.into_inner().unwrap();
+            let final_reason = ctl.cancel_reason();
+            let mut all: Vec<Option<String>> = seen.iter().map(|x| x.1.clone()).collect();
+            all.push(final_reason.clone());
+            if seen.first().map(|x| x.0) != Some(0) {
+                raced += 1;
+            }
+            if all.iter().any(|r| *r != final_reason) || final_reason.is_none() {
+                found.lock().unwrap().push((
+                    "C11:cancel-reason-changed-under-race".into(),
+                    format!("{nthreads} racing cancels: reasons read right after each thread's own cancel() returned: {seen:?}; reason at the end: {final_reason:?}"),
+                    json!({"threads": nthreads, "trial": t, "ops": []}),
+                ));
+                break;
+            }
+        }
+        rep.set("racing_cancel_trials", json!(trials));
+        rep.set("racing_cancel_trials_where_thread0_did_not_finish_first", json!(raced));
+    }
     quiet_panics(false);
     rep.set("random_operations_checked", json!(total_ops));
     // shortest witness first per signature
